@@ -835,19 +835,35 @@ def isHexDigit (c : Char) : Bool := isDigit c || ('a' ≤ c && c ≤ 'f') || ('A
 def isOctDigit (c : Char) : Bool := '0' ≤ c && c ≤ '7'
 def isBinDigit (c : Char) : Bool := c = '0' || c = '1'
 
-/-- `IntegerPattern`: `\\A[+-]?\\s*(?:\\d+|0[xX][0-9A-Fa-f]+|0[bB][01]+)\\z` -/
-def matchIntegerPattern (s : Str) : Bool :=
-  let s := match s with
-    | '+' :: r => r
-    | '-' :: r => r
-    | _ => s
-  match s.dropWhile isReSpace with
+/-- a text without its leading `+` or `-` -/
+def dropSign : Str → Str
+  | '+' :: r => r
+  | '-' :: r => r
+  | s => s
+
+/-- the leading `+` or `-` of a text -/
+def signOf : Str → Str
+  | '+' :: _ => ['+']
+  | '-' :: _ => ['-']
+  | _ => []
+
+/-- the radix prefix `integerFromString` takes off: `0x`/`0X` for radix 16, `0b`/`0B` for radix 2, digits must follow -/
+def dropRadixPrefix (radix : Nat) : Str → Str
+  | '0' :: c :: r =>
+    if !r.isEmpty && ((radix = 16 && (c = 'x' || c = 'X')) || (radix = 2 && (c = 'b' || c = 'B'))) then r else '0' :: c :: r
+  | s => s
+
+/-- the alternatives of `IntegerPattern` after sign and white space: `\\d+ | 0[xX][0-9A-Fa-f]+ | 0[bB][01]+` -/
+def matchIntegerBody : Str → Bool
   | [] => false
   | '0' :: c :: r =>
-    if c = 'x' || c = 'X' then (!r.isEmpty && r.all isHexDigit) || false
-    else if c = 'b' || c = 'B' then (!r.isEmpty && r.all isBinDigit)
+    if c = 'x' || c = 'X' then !r.isEmpty && r.all isHexDigit
+    else if c = 'b' || c = 'B' then !r.isEmpty && r.all isBinDigit
     else isDigit c && r.all isDigit
   | ds => ds.all isDigit
+
+/-- `IntegerPattern`: `\\A[+-]?\\s*(?:\\d+|0[xX][0-9A-Fa-f]+|0[bB][01]+)\\z` -/
+def matchIntegerPattern (s : Str) : Bool := matchIntegerBody ((dropSign s).dropWhile isReSpace)
 
 /-- value of a digit for strconv.ParseUint: 0-9, a-z, A-Z -/
 def parseDigit (c : Char) : Option Nat :=
@@ -866,10 +882,7 @@ def parseDigits (base : Nat) : Str → Nat → Option Nat
 /-- `strconv.ParseInt(s, base, 64)` for an explicit base: sign, digits below the base, no prefix, the int64 range -/
 def goParseInt (s : Str) (base : Nat) : Option Int :=
   let neg := s.head? = some '-'
-  let ds := match s with
-    | '+' :: r => r
-    | '-' :: r => r
-    | _ => s
+  let ds := dropSign s
   if ds.isEmpty then none
   else match parseDigits base ds 0 with
     | some n => if neg then (if n ≤ 2^63 then some (-(n : Int)) else none) else (if n < 2^63 then some (n : Int) else none)
@@ -883,19 +896,7 @@ inductive IntRes where
 /-- `integerFromString`: the sign, the white space after it and the prefix that denotes the given radix are taken off
     before strconv.ParseInt sees the text -/
 def integerFromString (s : Str) (radix : Nat) : Option Int :=
-  let sign : Str := match s with
-    | '+' :: _ => ['+']
-    | '-' :: _ => ['-']
-    | _ => []
-  let s := (match s with
-    | '+' :: r => r
-    | '-' :: r => r
-    | _ => s).dropWhile isReSpace
-  let s := match s with
-    | '0' :: c :: r =>
-      if !r.isEmpty && ((radix = 16 && (c = 'x' || c = 'X')) || (radix = 2 && (c = 'b' || c = 'B'))) then r else s
-    | _ => s
-  goParseInt (sign ++ s) radix
+  goParseInt (signOf s ++ dropRadixPrefix radix ((dropSign s).dropWhile isReSpace)) radix
 
 /-- `px.New(c, Integer, text, radix)`: the signature check (Convertible = Pattern[IntegerPattern]) then intFromConvertible -/
 def newInteger (s : Str) (radix : Nat) : IntRes :=
